@@ -293,4 +293,16 @@ PROPS = {
                        "RFC 3597 generic form, quoted character strings and TXT): needs core::fmt, the Scanner trait-object graph and "
                        "BytesMut, out of reach of both tools beyond single symbols (CBMC needs 45 s for one symbol through fmt).",
     },
+    "C14": {
+        "level": "other",
+        "units": ["nsecval"],
+        "kani": [],
+        "explanation": "decides one clause of the statement only -- 'no upstream NSEC3 owner label makes the validator panic': "
+                       "validator::nsec::nsec3_label_to_hash (real text; core::str::from_utf8 and OwnerHash::from_str stubbed with "
+                       "arbitrary results) has no reachable expect/unwrap/panic for any label.",
+        "not_covered": "Soundness of 'secure' (signature chains to a trust anchor, NSEC/NSEC3 proofs), insecure-delegation handling, "
+                       "every other panic site of the validator (e.g. get_checked_nsec's panic!(\"NSEC expected\"), "
+                       "nsec3_hash(..).unwrap()), loops: async code over caches and crypto, out of reach. nsec_in_range / "
+                       "nsec3_in_range compare generic names/hashes with operators and could not be extracted mechanically.",
+    },
 }
